@@ -12,8 +12,10 @@ import (
 	"hash/fnv"
 	"os"
 	"path/filepath"
+	"runtime"
 	"sort"
 	"strconv"
+	"strings"
 	"sync"
 	"time"
 )
@@ -169,13 +171,42 @@ func (r *Recorder) Violation(kind string, replay interface{}) string {
 		dir = os.TempDir()
 	}
 	_ = os.MkdirAll(dir, 0o755)
-	b, _ := json.MarshalIndent(map[string]interface{}{"property": r.Prop, "kind": kind, "case": replay}, "", " ")
+	// the test to re-run: the enumerating test that found it (enumerations are deterministic given tier and shard),
+	// unless the case names a dedicated replay test
+	test := callerTest()
+	if m, ok := replay.(map[string]interface{}); ok {
+		if rt, ok := m["replay_test"].(string); ok {
+			test = rt
+		}
+	}
+	b, _ := json.MarshalIndent(map[string]interface{}{"property": r.Prop, "kind": kind, "case": replay, "test": test,
+		"tier": os.Getenv("VERIF_TIER"), "shard": os.Getenv("VERIF_SHARD"), "nshards": os.Getenv("VERIF_NSHARDS")}, "", " ")
 	name := fmt.Sprintf("%s-%s-%016x.json", r.Prop, kind, Hash(b))
 	p := filepath.Join(dir, name)
 	_ = os.WriteFile(p, b, 0o644)
 	r.violations = append(r.violations, p)
 	fmt.Printf("VERIF-VIOLATION property=%s kind=%s replay=%s\n", r.Prop, kind, p)
 	return p
+}
+
+// callerTest: the name of the Test function on the calling goroutine's stack ("" if none).
+func callerTest() string {
+	pcs := make([]uintptr, 64)
+	n := runtime.Callers(2, pcs)
+	frames := runtime.CallersFrames(pcs[:n])
+	for {
+		f, more := frames.Next()
+		if i := strings.LastIndex(f.Function, ".Test"); i >= 0 {
+			name := f.Function[i+1:]
+			if j := strings.IndexAny(name, ".("); j >= 0 {
+				name = name[:j]
+			}
+			return name
+		}
+		if !more {
+			return ""
+		}
+	}
 }
 
 func clip(s string) string {
